@@ -5,8 +5,13 @@
 //!       prints inputs the model needs and the logged hash / KDF / AEAD calls of each step.
 //!   sweep <seed> <label hex> <parent> <group> <plaintext hex>
 //!       default suite: every context component and every ciphertext byte mutated; `<label>=<ok|err>`.
+//!   tframe <seed> <version> <topic 16B> <plaintext hex>      APQ topic keys, recording suite
+//!   tsweep <seed> <version> <topic 16B> <plaintext hex>      APQ topic keys, default suite, each component alone
 use std::io::{self, BufRead, Write};
 
+use aranya_crypto::apq::{
+    EncryptedTopicKey, ReceiverSecretKey, Sender, SenderSecretKey, SenderSigningKey, Topic, TopicKey, Version,
+};
 use aranya_crypto::{
     CipherSuite, EncryptedGroupKey, Encap, EncryptionKey, GroupKey, SigningKey,
     Context,
@@ -190,6 +195,155 @@ fn sweep(f: &[&str]) -> String {
     out.join(" ")
 }
 
+fn b16(s: &str) -> [u8; 16] {
+    unhex(s).try_into().expect("16 bytes")
+}
+
+fn tframe(f: &[&str]) -> String {
+    type CS = RecCs;
+    let rng = SeedRng::new(&unhex(f[1]));
+    let version = Version::new(f[2].parse().expect("version"));
+    let topic = Topic::from(b16(f[3]));
+    let pt = unhex(f[4]);
+    let s_enc_sk = SenderSecretKey::<CS>::new(&rng);
+    let s_enc = s_enc_sk.public().expect("pk");
+    let s_sign = SenderSigningKey::<CS>::new(&rng).public().expect("pk");
+    let recv = ReceiverSecretKey::<CS>::new(&rng);
+    let enc_id = s_enc.id().expect("id");
+    let sign_id = s_sign.id().expect("id");
+    let _ = log_take();
+    let tk = TopicKey::<CS>::new(&rng, version, &topic).expect("topic key");
+    let l0 = log_take();
+    let ident = Sender { enc_key: &s_enc, sign_key: &s_sign };
+    let mut dst = vec![0u8; pt.len() + TopicKey::<CS>::OVERHEAD];
+    tk.seal_message(&rng, &mut dst, &pt, version, &topic, &ident).expect("seal_message");
+    let l1 = log_take();
+    let mut back = vec![0u8; pt.len()];
+    tk.open_message(&mut back, &dst, version, &topic, &ident).expect("open_message");
+    let l2 = log_take();
+    let (enc, etk) = recv.public().expect("pk").seal_topic_key(&rng, version, &topic, &s_enc_sk, &tk).expect("seal_topic_key");
+    let l3 = log_take();
+    let tk2 = recv.open_topic_key(version, &topic, &s_enc, &enc, &etk).expect("open_topic_key");
+    let l4 = log_take();
+    let same = tk2.id().expect("id") == tk.id().expect("id");
+    let _ = log_take();
+    format!(
+        "oids={} enc_id={} sign_id={} sealed={} back={} same={} || {} || {} || {} || {} || {}",
+        oids_hex::<CS>(),
+        hex(enc_id.as_bytes()),
+        hex(sign_id.as_bytes()),
+        hex(&dst),
+        hex(&back),
+        same,
+        l0.join(" ; "), l1.join(" ; "), l2.join(" ; "), l3.join(" ; "), l4.join(" ; ")
+    )
+}
+
+fn tsweep(f: &[&str]) -> String {
+    type CS = DefaultCipherSuite;
+    let rng = SeedRng::new(&unhex(f[1]));
+    let v: u32 = f[2].parse().expect("version");
+    let topic_b = b16(f[3]);
+    let pt = unhex(f[4]);
+    let version = Version::new(v);
+    let topic = Topic::from(topic_b);
+    let s_enc_sk = SenderSecretKey::<CS>::new(&rng);
+    let s_enc = s_enc_sk.public().expect("pk");
+    let s_sign = SenderSigningKey::<CS>::new(&rng).public().expect("pk");
+    let s_enc2_sk = SenderSecretKey::<CS>::new(&rng);
+    let s_enc2 = s_enc2_sk.public().expect("pk");
+    let s_sign2 = SenderSigningKey::<CS>::new(&rng).public().expect("pk");
+    let recv = ReceiverSecretKey::<CS>::new(&rng);
+    let recv2 = ReceiverSecretKey::<CS>::new(&rng);
+    let tk = TopicKey::<CS>::new(&rng, version, &topic).expect("topic key");
+    let tk_other = TopicKey::<CS>::new(&rng, version, &topic).expect("topic key");
+    let mut out = Vec::new();
+
+    // ---- messages
+    let mut ct = vec![0u8; pt.len() + TopicKey::<CS>::OVERHEAD];
+    tk.seal_message(&rng, &mut ct, &pt, version, &topic, &Sender { enc_key: &s_enc, sign_key: &s_sign }).expect("seal_message");
+    let open = |k: &TopicKey<CS>, c: &[u8], v: u32, t: &[u8; 16], e: &aranya_crypto::apq::SenderPublicKey<CS>, s: &aranya_crypto::apq::SenderVerifyingKey<CS>| -> &'static str {
+        let n = c.len().saturating_sub(TopicKey::<CS>::OVERHEAD);
+        let mut dst = vec![0u8; n];
+        match k.open_message(&mut dst, c, Version::new(v), &Topic::from(*t), &Sender { enc_key: e, sign_key: s }) {
+            Ok(()) => if dst == pt { "ok" } else { "ok-other-pt" },
+            Err(_) => "err",
+        }
+    };
+    out.push(format!("tm.base={}", open(&tk, &ct, v, &topic_b, &s_enc, &s_sign)));
+    out.push(format!("tm.key.other={}", open(&tk_other, &ct, v, &topic_b, &s_enc, &s_sign)));
+    out.push(format!("tm.sender.enc_only={}", open(&tk, &ct, v, &topic_b, &s_enc2, &s_sign)));
+    out.push(format!("tm.sender.sign_only={}", open(&tk, &ct, v, &topic_b, &s_enc, &s_sign2)));
+    out.push(format!("tm.sender.both={}", open(&tk, &ct, v, &topic_b, &s_enc2, &s_sign2)));
+    for i in 0..32 {
+        out.push(format!("tm.version.{}={}", i, open(&tk, &ct, v ^ (1u32 << i), &topic_b, &s_enc, &s_sign)));
+    }
+    out.push(format!("tm.version.plus1={}", open(&tk, &ct, v.wrapping_add(1), &topic_b, &s_enc, &s_sign)));
+    for i in 0..16 {
+        let mut t = topic_b;
+        t[i] ^= 1 << (i % 8);
+        out.push(format!("tm.topic.{}={}", i, open(&tk, &ct, v, &t, &s_enc, &s_sign)));
+    }
+    // boundary shift version -> topic (fixed sizes: rotate the 20 bytes by one)
+    {
+        let mut both = [0u8; 20];
+        both[..4].copy_from_slice(&v.to_be_bytes());
+        both[4..].copy_from_slice(&topic_b);
+        both.rotate_left(1);
+        let v2 = u32::from_be_bytes(both[..4].try_into().unwrap());
+        let t2: [u8; 16] = both[4..].try_into().unwrap();
+        if v2 != v || t2 != topic_b {
+            out.push(format!("tm.shift.version>topic={}", open(&tk, &ct, v2, &t2, &s_enc, &s_sign)));
+        }
+    }
+    for i in 0..ct.len() {
+        let mut c = ct.clone();
+        c[i] ^= 1 << (i % 8);
+        out.push(format!("tm.ct.{}={}", i, open(&tk, &c, v, &topic_b, &s_enc, &s_sign)));
+    }
+    for n in [0usize, 11, 12, 27, ct.len() - 1] {
+        if n < ct.len() {
+            out.push(format!("tm.trunc.{}={}", n, open(&tk, &ct[..n], v, &topic_b, &s_enc, &s_sign)));
+        }
+    }
+
+    // ---- sealed topic key
+    let (enc, etk) = recv.public().expect("pk").seal_topic_key(&rng, version, &topic, &s_enc_sk, &tk).expect("seal_topic_key");
+    let tid = tk.id().expect("id");
+    let encb = enc.as_bytes().to_vec();
+    let etkb = etk.as_bytes().to_vec();
+    let opentk = |r: &ReceiverSecretKey<CS>, spk: &aranya_crypto::apq::SenderPublicKey<CS>, encb: &[u8], etkb: &[u8], v: u32, t: &[u8; 16]| -> &'static str {
+        let Ok(enc) = Encap::<CS>::from_bytes(encb) else { return "err" };
+        let Ok(etk) = EncryptedTopicKey::<CS>::from_bytes(etkb) else { return "err" };
+        match r.open_topic_key(Version::new(v), &Topic::from(*t), spk, &enc, &etk) {
+            Ok(k) => if k.id().expect("id") == tid { "ok" } else { "ok-other-key" },
+            Err(_) => "err",
+        }
+    };
+    out.push(format!("tr.base={}", opentk(&recv, &s_enc, &encb, &etkb, v, &topic_b)));
+    out.push(format!("tr.recipient.other={}", opentk(&recv2, &s_enc, &encb, &etkb, v, &topic_b)));
+    out.push(format!("tr.sender.other={}", opentk(&recv, &s_enc2, &encb, &etkb, v, &topic_b)));
+    for i in 0..32 {
+        out.push(format!("tr.version.{}={}", i, opentk(&recv, &s_enc, &encb, &etkb, v ^ (1u32 << i), &topic_b)));
+    }
+    for i in 0..16 {
+        let mut t = topic_b;
+        t[i] ^= 1 << (i % 8);
+        out.push(format!("tr.topic.{}={}", i, opentk(&recv, &s_enc, &encb, &etkb, v, &t)));
+    }
+    for i in 0..etkb.len() {
+        let mut e = etkb.clone();
+        e[i] ^= 1 << (i % 8);
+        out.push(format!("tr.ct.{}={}", i, opentk(&recv, &s_enc, &encb, &e, v, &topic_b)));
+    }
+    for i in (0..encb.len()).step_by(3) {
+        let mut e = encb.clone();
+        e[i] ^= 1 << (i % 8);
+        out.push(format!("tr.enc.{}={}", i, opentk(&recv, &s_enc, &e, &etkb, v, &topic_b)));
+    }
+    out.join(" ")
+}
+
 fn main() {
     quiet_panics();
     let stdin = io::stdin();
@@ -201,6 +355,8 @@ fn main() {
         let r = guarded(|| match f.first().copied() {
             Some("frame") if f.len() == 6 => frame(&f),
             Some("sweep") if f.len() == 6 => sweep(&f),
+            Some("tframe") if f.len() == 5 => tframe(&f),
+            Some("tsweep") if f.len() == 5 => tsweep(&f),
             _ => "badcase".to_string(),
         });
         match r {
